@@ -12,6 +12,9 @@ import (
 var callLog A
 
 func logCall(id string, args []*val.Val) {
+	if quietLog { // concurrent families: no shared log
+		return
+	}
 	as := A{}
 	for _, a := range args {
 		as = append(as, valJ(a))
